@@ -138,6 +138,7 @@ package domain
 
 //@ interface InferenceProfile.GetConfig()
 //@   ensures res != nil ==> res.API.OpenAICompatible == oaiDeclared(ghost(self).forName)
+//@   ensures res == cfgOf(ghost(self).forName)
 
 // ---- C10: filter configuration predicates
 //@ func (fc *FilterConfig) IsEmpty
